@@ -1451,7 +1451,7 @@ def st_aca(draw):
     nd = 3 if algo.startswith("aca_3d") else 2
     hi = 8 if nd == 3 else 14
     return {"algo": algo, "shape": draw(st.lists(st.integers(1, hi), min_size=nd, max_size=nd)),
-            "r": draw(st.sampled_from([0, 1, 1, 2, 2, 3, 3, 4, 5])),
+            "r": draw(st.sampled_from([2, 3, 1, 4, 2, 3, 5, 1, 4, 0])),
             "kind": draw(st.sampled_from(["pos", "uni", "normal"])),
             "seed": draw(st.integers(0, 10 ** 6)), "npseed": draw(st.integers(0, 10 ** 6)),
             "extra": draw(st.one_of(st.none(), st.integers(3, 10))),
@@ -1537,9 +1537,10 @@ def run_greedy(spec, ctx):
             # best approximation is at least as good as the best single term of the generating factors
             if fs is not None:
                 best_sv = max(rd.mode_singular_values(A, 0)[0] if d >= 1 else 0.0, 0.0)
-                lower = float(np.sqrt(max(nA ** 2 - best_sv ** 2, 0.0)))
-                if err < lower * (1 - 1e-7) - 1e-9 * nA:
-                    raise Violation("als1:below_lower_bound", "error %.6g below sqrt(|A|^2 - sigma_1^2) = %.6g" % (err, lower))
+                lower2 = max(nA ** 2 - best_sv ** 2, 0.0)
+                if err ** 2 < lower2 * (1 - 1e-7) - 1e-12 * nA ** 2:
+                    raise Violation("als1:below_lower_bound", "error %.6g below sqrt(|A|^2 - sigma_1^2) = %.6g"
+                                    % (err, np.sqrt(lower2)))
         elif algo == "grou":
             tol = tol_rel * nA
             X, errors = ctx.sut(T.grou, obj, R, tol=tol, return_errors=True, what="grou")
@@ -1584,8 +1585,8 @@ def run_greedy(spec, ctx):
             if fs is not None and r == 1 and errors[0] > 1e-10 * nA:
                 raise Violation("gta:exact_rank1", "rank-1 tensor: first error %.3g" % errors[0])
         else:   # als
-            if fs is None:
-                raise Skip("als fixed-point check needs exact factors")
+            if fs is None or d < 2:
+                raise Skip("als: needs exact factors and order >= 2")
             Ra = r
             if spec["startval"] == "tensor":
                 sv = ctx.sut(T.CanonicalTensor, tuple(f.copy() for f in fs), what="CanonicalTensor")
@@ -1626,7 +1627,7 @@ def run_greedy(spec, ctx):
 @st.composite
 def st_greedy(draw):
     algo = draw(st.sampled_from(["als1", "grou", "grou", "gta", "gta", "als"]))
-    return {"algo": algo, "shape": draw(st_shape([1, 2, 3, 4, 5, 6], orders=(1, 2, 3, 3, 3, 4))),
+    return {"algo": algo, "shape": draw(st_shape([1, 2, 3, 4, 5, 6], orders=(1, 2, 3, 3, 3, 4) if algo != "als" else (2, 3, 3, 4))),
             "r": draw(st.sampled_from([1, 1, 2, 2, 3])), "kind": draw(st.sampled_from(["pos", "normal"])),
             "noise_exp": draw(st.sampled_from([None, None, -1, -3, -6])) if algo != "als" else None,
             "fmt": draw(st.sampled_from(["full", "canon", "tucker"])),
